@@ -374,7 +374,7 @@ func (c *catalogue) caseColumns(t *Table) {
 				m.Table(n).Columns = append(m.Table(n).Columns, &Column{Name: vn, Type: T(m.Dialect).Int(), Null: true})
 			})
 			// an expression that reads the column by text cannot follow: only columns nothing reads by text.
-			if vi > 0 || len(uses[old]) > 0 || inAutoIndex(t, old) {
+			if vi > 0 || len(uses[old]) > 0 || inAutoIndex(t, old) || inPositionalFK(m, t, old) {
 				continue
 			}
 			exp := []Desc{{Kind: "DropColumn", Table: n, Object: old}, {Kind: "AddColumn", Table: n, Object: vn}}
